@@ -10,6 +10,8 @@ PROPS = {"C01": "C01,C02,C15", "C02": "C02,C09,C01", "C03": "C03,C04,C12", "C05"
          # round 2 (groups of properties per agent)
          "A": "C01,C02,C06,C14,C15", "B": "C03,C04,C05,C12", "C": "C07,C08", "D": "C09,C11,C12,C08", "E": "C13,C14,C15,C05", "F": "C10,C19",
          "G": "C16,C17", "H": "C18,C08,C10"}
+if PREFIX == "r3":
+    PROPS = {"A": "C01,C02,C13,C06", "B": "C03,C04,C05,C06,C08,C12", "C": "C07,C08,C14,C15,C12,C13", "D": "C09,C11,C18,C02,C06", "E": "C10,C19,C12,C13", "F": "C16,C17"}
 out = []
 for grp in sorted(PROPS):
     if ONLY and grp != ONLY:
@@ -19,6 +21,8 @@ for grp in sorted(PROPS):
         continue
     for m in sorted(os.listdir(d)):
         md = os.path.join(d, m)
+        if not os.path.isdir(md) or not os.path.exists(os.path.join(md, "patch.diff")):
+            continue
         r = subprocess.run(["/verif/tools/try_mutant.py", md, "--props", PROPS[grp]], stdout=subprocess.PIPE, stderr=subprocess.STDOUT, text=True)
         try:
             res = json.loads(r.stdout.strip().split("\n")[-1])
